@@ -1,17 +1,8 @@
 INIT Init
 NEXT Next
 CONSTANTS
-  Signs <- Both
-  Sigs <- Sig3
-  Exps <- ExpSmall
-  Precs = {1, 2, 3, 4}
-  UncSigs <- SigEdge
-  UncOffs = {}
-  UncPrecs = {}
-  Units = {}
-  Convs = {}
-  UncSrcs = {"arg"}
-  RomanMax = 0
+  SliceTable <- AllSlices
+  SliceNames = {"small_t"}
 INVARIANT TypeOK
 INVARIANT RoundCarries
 INVARIANT ModelNumberDenotes
